@@ -11,6 +11,29 @@ CHECKS = {
                 note='Trusted: the virtual loop, the tap (frames decoded from the written bytes with an independent reference codec), the recording application. Real TransportTCP and the messaging base class are exercised; websocket/QUIC glue is not.'),
 }
 
+CHECKS.update({
+    'C02': dict(engine='codec', level='exploration', design='3/C02',
+                technique='property-based testing: differential against an independent reference codec, round-trip and canonical-bytes relations, exhaustive header tables, coverage-guided fuzzing (atheris) of the decode->encode fixed point',
+                text='Generated frame values of all 14 types on both codec backends, compared with a reference codec written from the specification; exhaustive 64x1024x5 header table; thorough tier adds libFuzzer runs. Search over values, no proof.',
+                note='Trusted: harness/refcodec.py (independent of the repository), Hypothesis generators. cbitstruct variant needs cbitstruct installed (reported in evidence key backends).'),
+    'C03': dict(engine='codec', level='exploration', design='3/C03',
+                technique='exhaustive enumeration of (data length, metadata length) windows plus Hypothesis cases, validity predicate over reference-decoded fragments',
+                text='Every (dlen, mlen) pair in a window covering 0..2+ fragments for several fragment sizes, both framings and all fragmentable types is fragmented, measured on the wire, and reassembled; larger sizes by Hypothesis. Exhaustive inside the windows only.',
+                note='Trusted: reference codec for measuring/decoding fragments. One open known finding (metadata length field not budgeted).'),
+    'C04': dict(engine='codec', level='exploration', design='3/C04',
+                technique='metamorphic property-based testing (chunking partitions) with a reference expectation; coverage-guided fuzzing in the thorough tier',
+                text='Generated frame sequences with malformed bodies decoded under several partitions of the byte stream, through FrameParser and through the real TransportTCP reader path, and per message in message mode.',
+                note='Trusted: reference codec for canonical bytes; asyncio.StreamReader from the standard library.'),
+    'C13': dict(engine='codec', level='exploration', design='3/C13',
+                technique='model-based property testing (operation lists against a reference allocator) plus exhaustive enumeration of short histories',
+                text='Histories of allocate/register/finish on StreamControl for both parities on reduced id spaces (as the suite does) and at the 31-bit wrap, all histories to a depth bound and Hypothesis-generated longer ones; incoming id reuse against a real endpoint.',
+                note='Trusted: the reference allocator (sorted free sets). Lowers StreamControl._maximum_stream_id like tests/rsocket/test_stream_control.py.'),
+    'C18': dict(engine='codec', level='exploration', design='3/C18',
+                technique='property-based testing: differential against a reference composite-metadata encoder, round trip, exhaustive id/name tables; fuzzing of parse->serialize stability in the thorough tier',
+                text='Generated lists of composite entries of every kind within the format limits, out-of-range names and tags, exhaustive registry tables against the specification list.',
+                note='Trusted: specification tables embedded in harness/refcodec.py.'),
+})
+
 NOT_YET = {}
 
 
